@@ -520,6 +520,10 @@ invariant
     inv_restart(stop_timer, on_end_restart, env), // OBL:C07.job_task.restart_ticket_covered_at_every_iteration
     waiters_ok(&command_state, on_end@), // OBL:C07+C09.job_task.wait_for_end_tickets_are_parked_only_while_a_process_runs
     senders_ok(env.urgent@, env.high@), // OBL:C06.job_task.urgent_and_high_queues_hold_only_their_classes
+ensures
+    // the job task ends only because a handler said so (Delete), or with nothing left to do: every Job handle dropped (queues closed), every queue drained,
+    // no stop timer armed and no process running (D18: pending controls and an armed timer are never abandoned)
+    told_to_end || (env.closed@ && env.urgent@.len() == 0 && env.high@.len() == 0 && env.normal@.len() == 0 && stop_timer is None && !(command_state is Running)), // OBL:C07+C10+C06.job_task.ends_only_when_told_to_or_with_every_queue_closed_and_drained_no_timer_armed_and_nothing_running
 //@ hint 0 after `Loop::Break => {`
 proof { told_to_end = true; }
 //@ hint 1 after `Loop::Break => {`
